@@ -22,7 +22,7 @@ var c04Passwords = []string{
 	"\xff\xfe-not-utf8", strings.Repeat("p", 255), strings.Repeat("p", 256), strings.Repeat("p", 257), "p", "UPPER", "upper", "%41", "&amp;", "{\"json\":1}", "-dash-first", "=eq", "a@b,c=d",
 }
 
-var c04Users = []string{"alice", "Bob", "a.user", "x.admin", "d@example.org", "e-f_g", "0", strings.Repeat("u", 249)}
+var c04Users = []string{"alice", "Bob", "a.user", "x.admin", "d@example.org", "e-f_g", "0", strings.Repeat("u", 249), "d", "alice@corp", "alice@corp@example.org"}
 
 func propC04(r *Run) {
 	inAgentBubble(r, func(w *AWorld) {
@@ -118,7 +118,7 @@ func propC04(r *Run) {
 				pw = c04Passwords[r.Choose("probe-pw", len(c04Passwords))]
 			case 3: // a transformation a frontend might wrongly apply
 				s := stored[u]
-				pw = []string{strings.TrimSpace(s), strings.ToLower(s), strings.ToUpper(s), strings.SplitN(s, ":", 2)[0], strings.TrimRight(s, "\x00"), s + " ", strings.ToValidUTF8(s, "�")}[r.Choose("transform", 7)]
+				pw = []string{strings.TrimSpace(s), strings.ToLower(s), strings.ToUpper(s), strings.SplitN(s, ":", 2)[0], strings.TrimRight(s, "\x00"), s + " ", strings.ToValidUTF8(s, "�"), latin1(s), utf8FromLatin1(s)}[r.Choose("transform", 9)]
 				if len(s) > 256 {
 					pw = s[:256]
 				}
@@ -266,6 +266,9 @@ func propC04(r *Run) {
 			}
 			r.Count("probe:logins-racing-set-admin")
 		}
+		if r.Choose("conc-net-yields", 3) == 0 {
+			w.netYields()
+		}
 		lo := loopOpts{maxSteps: 3000, wClient: 3, wLoop: 3}
 		if r.Choose("slow-hashing", 3) == 0 {
 			// time passes while requests are queued or being hashed (a memory-hard hash takes
@@ -286,4 +289,26 @@ func propC04(r *Run) {
 		r.Steps += nprobe * 5
 		r.Sample(map[string]any{"config": cfg.Desc(), "probes": trace[:min(len(trace), 6)]})
 	})
+}
+
+// latin1 re-encodes a UTF-8 string as ISO-8859-1 bytes where possible (what an old browser
+// sends for basic auth); utf8FromLatin1 is the opposite mistake.
+func latin1(s string) string {
+	var b []byte
+	for _, r := range s {
+		if r < 256 {
+			b = append(b, byte(r))
+		} else {
+			b = append(b, '?')
+		}
+	}
+	return string(b)
+}
+
+func utf8FromLatin1(s string) string {
+	var rs []rune
+	for i := 0; i < len(s); i++ {
+		rs = append(rs, rune(s[i]))
+	}
+	return string(rs)
 }
